@@ -659,6 +659,13 @@ class DocutilsRenderer(RendererProtocol):
                 # by default pygments strips leading and trailing blank lines
                 lex_tokens.lexer.stripnl = False
 
+            # pygments pre-processes its input (e.g. drops a leading BOM) and some
+            # lexers are lossy: only highlight if the lexed values add up to the text
+            lex_tokens = list(lex_tokens)
+            lexed_text = "".join(value for _, value in lex_tokens)
+            if lexed_text not in (text, text.removesuffix("\n")):
+                lex_tokens = [([], text)]
+
             if number_lines:
                 lex_tokens = NumberLines(
                     lex_tokens, lineno_start, lineno_start + len(text.splitlines())
